@@ -1799,9 +1799,9 @@ func runOnce(scn *scenario, seed int64) observation {
 }
 
 // runOn runs the scenario on the shared transcoder sh (or on a fresh one when sh is nil).
-func runOn(sh *sharedTC, scn *scenario, seed int64, rpcID string) observation {
+func runOn(sh *sharedTC, scn *scenario, seed int64, rpcID string) (obs observation) {
 	rn := newRun(scn, seed)
-	obs := observation{SID: scn.SID, Ev: "rpc", Scn: scn, Disp: []dispatchObs{}}
+	obs = observation{SID: scn.SID, Ev: "rpc", Scn: scn, Disp: []dispatchObs{}}
 	var tc *vanguard.Transcoder
 	if sh != nil {
 		tc = sh.tc
@@ -1826,6 +1826,10 @@ func runOn(sh *sharedTC, scn *scenario, seed int64, rpcID string) observation {
 			obs.Note = "NewTranscoder: " + err.Error()
 			return obs
 		}
+	}
+	if scn.WatchPool && sh == nil {
+		watchPool(tc)
+		defer func() { obs.Pool, obs.PoolMaxCap = takePoolLog(tc) }()
 	}
 	req, body, sentBody := rn.buildRequest()
 	rn.sentReq = req.Clone(context.Background())
